@@ -382,6 +382,48 @@ def run(seed, tier, replay=None):
                                             expected=float(v), observed=float(o[r_, c_]),
                                             call=f"{fn}(np.array({[[int(x)] for x in A.ravel()]}, dtype={dt!r}), np.array({[[int(x)] for x in B.ravel()]}, dtype={dt!r}), np.array({[float(x) for x in arg]}))[{r_},{c_}] vs {fn}({aa}, {bb}, {float(arg[c_])!r})")
 
+        # ---- element-wise broadcasting over the whole order-statistic family: a = (1..n), b = (n..1) as 1-D arrays (so that
+        # b == a[::-1], the shape the ld bands use) with a NON-constant argument array of shape (n,) and (k, n); every element
+        # must be the scalar call with ITS OWN coverage / x
+        for it in range(3 if tier == "quick" else 25):
+            n = rng.randint(2, 9) if it else 2
+            A, B = np.arange(1, n + 1), np.arange(n, 0, -1)
+            for fn in ("beta_equal_tailed_interval", "beta_highest_density_interval", "beta_equal_tailed_coverage", "beta_highest_density_coverage"):
+                if "highest" in fn and n == 1:
+                    continue
+                f = getattr(util, fn)
+                for shape in ((n,), (2, n)):
+                    arg = np.array([rng.uniform(0.02, 0.98) for _ in range(int(np.prod(shape)))]).reshape(shape)
+                    if "highest" in fn and n == 2:
+                        pass        # (1,2) and (2,1) both have a highest-density interval; (1,1) cannot occur for n >= 2
+                    rep.count("elementwise_broadcast:%s:%s" % (fn.split("_")[1], "x".join(map(str, shape))))
+                    try:
+                        out = f(A, B, arg)
+                    except Exception as e:  # noqa: BLE001
+                        rep.violate(what=f"{fn} raised on element-wise arrays of the order-statistic family", error=repr(e),
+                                    input=dict(a=A, b=B, arg=arg), call=fn)
+                        continue
+                    outs = out if isinstance(out, tuple) else (out,)
+                    if any(np.shape(o) != shape for o in outs):
+                        rep.violate(what=f"{fn} does not broadcast ({n},),({n},),{shape} to {shape}", input=dict(a=A, b=B, arg=arg), call=fn)
+                        continue
+                    for idx in np.ndindex(*shape):
+                        j = idx[-1]
+                        sv = f(int(A[j]), int(B[j]), float(arg[idx]))
+                        ss = sv if isinstance(sv, tuple) else (sv,)
+                        rep.case(("elementwise", fn, n, shape, idx, float(arg[idx])))
+                        lim = 0.0 if "equal_tailed" in fn else (4e-10 if "interval" in fn else 2e-6)
+                        for o, v in zip(outs, ss):
+                            if not abs(float(o[idx]) - float(v)) <= lim:
+                                rep.violate(what=f"{fn}: element {idx} of an element-wise call (a=1..n, b=n..1, argument array of shape {shape}) "
+                                                 "differs from the scalar call with that element's own argument",
+                                            input=dict(a=int(A[j]), b=int(B[j]), arg=float(arg[idx]), n=n, shape=list(shape),
+                                                       arg_array=[float(x) for x in arg.ravel()]),
+                                            expected=float(v), observed=float(o[idx]),
+                                            call=f"{fn}(np.arange(1,{n}+1), np.arange({n},0,-1), np.array({[float(x) for x in arg.ravel()]}).reshape{shape})[{idx}] "
+                                                 f"vs {fn}({int(A[j])}, {int(B[j])}, {float(arg[idx])!r})")
+                                break
+
     replies = drv.run(reqs)
 
     # ---- second stage: proposed certificates for the highest-density intervals the simple search could not certify
